@@ -18,6 +18,9 @@ Part D (kind of the value a computed key evaluates to x site that turns a key in
   pipeline; a cell is a two-step history (write site x spelling, then a second step) with the whole battery of routes
   (member read by value / in place / by the canonical string, in, both hasOwnProperty routes, getOwnPropertyDescriptor,
   keys / values / entries / for-in, the child object) observed after each step.  The canonical name comes from the spec.
+Part E (re-entry, spec/C08.tla): same pipeline; a cell is a function that refers to itself (own name of a named function
+  expression, declaration / variable of the enclosing scope, captured by a nested closure) x the call form that enters it x the
+  call form of the inner call it makes through that reference; this / arguments / instance linkage of three levels are judged.
 Python never computes an expected value.
 """
 import json, os, random, collections, time
@@ -281,7 +284,7 @@ def part_callforms(rep):
     for i, c in enumerate(cells):
         c["id"] = i
     rep.spaces.append({"space": "call form x function kind, plus new-return rules and constructor chains",
-                       "cases": sum(1 for c in cells if c["form"] not in ("tv", "key")), "complete": True})
+                       "cases": sum(1 for c in cells if c["form"] not in ("tv", "key", "re")), "complete": True})
     ntv = sum(1 for c in cells if c["form"] == "tv")
     if ntv < 300:
         raise Machinery("this-value enumeration produced only %d cells" % ntv)
@@ -293,7 +296,13 @@ def part_callforms(rep):
     rep.spaces.append({"space": "kind of the computed key's value x site that turns a key into a property name "
                                 "(write site x spelling x second step, %s grid), battery of 21 observations after each step" % rep.tier,
                        "cases": nkey, "complete": True})
-    rep.notes["cells"] = {"call_forms": len(cells) - ntv - nkey, "this_value": ntv, "key_kind": nkey}
+    nre = sum(1 for c in cells if c["form"] == "re")
+    if nre < 200:
+        raise Machinery("re-entry enumeration produced only %d cells" % nre)
+    rep.spaces.append({"space": "re-entry: how the function refers to itself x call form entering level 0 x call form of the inner "
+                                "call through the self-reference (%s grid), three levels observed" % rep.tier,
+                       "cases": nre, "complete": True})
+    rep.notes["cells"] = {"call_forms": len(cells) - ntv - nkey - nre, "this_value": ntv, "key_kind": nkey, "re_entry": nre}
     results = engine.run_cases(pid, cells, driver="checks.c08_driver:cell_driver", tag="calleng")
     byid = {c["id"]: c for c in cells}
     dv = sorted(rep.findings)          # the chain cells also meet object-model deviations
@@ -308,6 +317,8 @@ def part_callforms(rep):
         c = byid[v["id"]]
         if c["form"] == "key":
             label = "key kind %s (%s, name %r) written by %s, then %s" % (c["kind"], drv.KEY_EXPR[c["kind"]], c["name"], c["via"], c["ret"])
+        elif c["form"] == "re":
+            label = "re-entry: %s function entered by %s, inner %s call through its self-reference" % (c["kind"], c["via"], c["ret"])
         elif c["form"] == "tv":
             label = "this-value %s through %s x kind %s" % (c["ret"], c["via"], c["kind"])
         else:
